@@ -31,9 +31,9 @@ class PduHolder:
         self.pdu = pdu
 
     def pack(self) -> bytearray:
-        if self.base is None:
+        if self.pdu is None:
             return bytearray()
-        return self.base.pack()
+        return self.pdu.pack()
 
     @property
     @deprecation.deprecated(
